@@ -71,7 +71,7 @@ var wsPool = []string{" ", "\t", "\n", "\r", "\x00", "\x1f", "\x0c", "  ", " \t\
 func genIPv4(r *Rand) string {
 	n := 1 + r.N(4)
 	if r.P(15) {
-		n = 5 + r.N(2)
+		n = 5 + r.N(6)
 	}
 	parts := make([]string, n)
 	for i := range parts {
@@ -91,6 +91,8 @@ func genIPv4(r *Rand) string {
 		s = "." + s
 	case 3:
 		s = r.Pick(asciiLabels) + "." + s
+	case 4:
+		s = strings.Repeat(r.Pick(asciiLabels)+".", 2+r.N(6)) + s
 	}
 	return s
 }
@@ -177,8 +179,32 @@ func genIPv6Host(r *Rand) string {
 	}
 }
 
+// scale: mostly 1, occasionally a larger multiplier, so that structures sometimes grow beyond the sizes at which
+// implementations switch algorithms (small-slice fast paths, fixed split bounds, capacity doubling)
+func scale(r *Rand) int {
+	if r.P(94) {
+		return 1
+	}
+	return 3 + r.N(14)
+}
+
+func genQuery(r *Rand) string {
+	if r.P(70) {
+		return r.Pick(queryPool)
+	}
+	np := (1 + r.N(4)) * scale(r)
+	parts := make([]string, np)
+	for j := range parts {
+		parts[j] = r.Pick([]string{"a", "b", "c", "A", "", "a b", "%61", "é", "x"})
+		if r.P(80) {
+			parts[j] += "=" + r.Pick([]string{"", "1", "2", "x y", "%20", "+", fmt.Sprint(j)})
+		}
+	}
+	return strings.Join(parts, "&")
+}
+
 func genDomain(r *Rand) string {
-	n := 1 + r.N(3)
+	n := (1 + r.N(3)) * scale(r)
 	ls := make([]string, n)
 	for i := range ls {
 		if r.P(25) {
@@ -235,7 +261,7 @@ func genHost(r *Rand) string {
 }
 
 func genPath(r *Rand) string {
-	n := r.N(5)
+	n := r.N(5) * scale(r)
 	var sb strings.Builder
 	for i := 0; i < n; i++ {
 		sep := "/"
@@ -277,7 +303,7 @@ func genURL(r *Rand) string {
 			}
 			sb.WriteString("@")
 			if r.P(10) {
-				sb.WriteString(r.Pick(userPool) + "@")
+				sb.WriteString(strings.Repeat(r.Pick(userPool)+"@", scale(r)))
 			}
 		}
 		sb.WriteString(genHost(r))
@@ -290,7 +316,7 @@ func genURL(r *Rand) string {
 	}
 	sb.WriteString(genPath(r))
 	if r.P(35) {
-		sb.WriteString("?" + r.Pick(queryPool))
+		sb.WriteString("?" + genQuery(r))
 	}
 	if r.P(30) {
 		sb.WriteString("#" + r.Pick(fragPool))
@@ -497,3 +523,50 @@ func genSetterValue(r *Rand, k int) string {
 
 var spNames = []string{"a", "b", "c", "A", "x", "", "a b", "a&b", "a=b", "a+b", "a%26b", "%", "%41", "é", "\xff", "a#b", "a?b", "'", "\"", "ab", "a\x00", "~", "*", "-._", "\ufffd", "\U0001F600"}
 var spValues = []string{"", "1", "2", "x", "b c", "c=d", "c&d", "1+1", "1%2B1", "%", "%zz", "é", "\xff", "#", "?", "'", "\"<>", " ", "+", "a\nb", "\ufffd", "~*-._", "%26", "%3D", "%25"}
+
+// genInputFor: an input biased toward the features the options of c are about (the trigger of each option both present and
+// absent), so that option-specific code is reached often
+func genInputFor(r *Rand, c *Cfg) string {
+	if c == nil || c == defaultCfg || r.P(40) {
+		return genInput(r)
+	}
+	o := c.Opts
+	var extras []string
+	if o.PercentEncodeSinglePercentSign {
+		extras = append(extras, "é%41", "%", "%4", "a%zz", "日%2F本%", "%%41", "ö%40h", "%é41")
+	}
+	if o.AcceptInvalidCodepoints {
+		extras = append(extras, "\xff", "a\xff\xfeb", "\xc3", "\ufffd", "a\ufffd\xffb", "\xf0\x9f")
+	}
+	if o.CollapseConsecutiveSlashes {
+		extras = append(extras, "//", "///a", "a//b", "/.//", "//..", "//.", "/a//../b", "\\\\x")
+	}
+	if o.SkipWindowsDriveLetterNormalization {
+		extras = append(extras, "C|", "/C|/x", "c|", "C|\\x")
+	}
+	if o.EncodingOverride != "" {
+		extras = append(extras, "é", "ÿ", "日本", "%E9", "%C3%A9", "\xe9", "€")
+	}
+	if o.LaxHostParsing {
+		extras = append(extras, "a b", "a<b", "a%zzb", "a^b", "%", "a|b", "a\x7fb")
+	}
+	if len(extras) == 0 {
+		return genInput(r)
+	}
+	e := r.Pick(extras)
+	scheme := r.Pick([]string{"http", "https", "file", "sc", "ftp"})
+	switch r.N(6) {
+	case 0:
+		return scheme + "://" + e + genPath(r)
+	case 1:
+		return scheme + "://h/" + e + "/" + r.Pick(segPool)
+	case 2:
+		return scheme + "://u" + e + ":p@h/"
+	case 3:
+		return scheme + "://h/?" + e + "#" + e
+	case 4:
+		return scheme + "://" + r.Pick(asciiLabels) + e + "." + r.Pick(asciiLabels) + "/" + e
+	default:
+		return scheme + ":" + e + genPath(r)
+	}
+}
